@@ -240,6 +240,10 @@ func NewFont(ld *ot.Loader) (*Font, error) {
 
 	raw, _ = ld.RawTable(ot.MustNewTag("avar"))
 	out.avar, _, _ = tables.ParseAvar(raw)
+	if len(out.avar.AxisSegmentMaps) != len(out.fvar) {
+		// 'avar' must have one segment map per 'fvar' axis: ignore an invalid table
+		out.avar = tables.Avar{}
+	}
 
 	out.upem = out.head.Upem()
 
